@@ -283,9 +283,15 @@ def tensor_index(it, base: VTensor, idx, node):
     items += [VSlice(None, None, None)] * (d.ndim() - n_explicit)
     cur = d
     ax = 0
+    cnts = list(base.counts) if base.counts is not None else None   # bundle sizes follow the axes
     for x in items:
+        if cnts is not None and not isinstance(x, VNone) and not (isinstance(x, VSlice) and x.lo is None and x.hi is None and x.step is None) \
+                and not it.facts.eq(cnts[ax], ONE):
+            raise Unmodelled("index into a bundle of axes")
         if isinstance(x, VNone):
             cur = net.insert_axis(cur, ax)
+            if cnts is not None:
+                cnts.insert(ax, ONE)
             ax += 1
         elif isinstance(x, VSlice):
             if x.lo is None and x.hi is None and x.step is None:
@@ -314,6 +320,8 @@ def tensor_index(it, base: VTensor, idx, node):
                 cur = net.drop_axis(sp, cur, ax)
             else:
                 cur = net.index_axis_int(sp, cur, ax, repr(p))
+            if cnts is not None:
+                cnts.pop(ax)
         elif isinstance(x, VTensor):
             # integer index tensor (gather): new axis shares the index tensor's (single) axis
             idt = x.dense()
@@ -330,9 +338,11 @@ def tensor_index(it, base: VTensor, idx, node):
             ax += 1
         elif isinstance(x, VOpaque) and x.tag.startswith("userint:"):
             cur = net.index_axis_int(sp, cur, ax, x.tag.split(":", 1)[1])
+            if cnts is not None:
+                cnts.pop(ax)
         else:
             raise Unmodelled(f"tensor index of type {type(x).__name__}")
-    return VTensor(cur, base.dtype)
+    return VTensor(cur, base.dtype, cnts)
 
 
 def gather_name(sp, idx: Dense) -> str:
@@ -425,12 +435,21 @@ def call(it, e: ast.Call, fr):
 
 
 def method(it, base, name, args, kwargs, fr, node):
+    if isinstance(base, VOpaque) and base.tag == "logger":
+        return VNone()       # logging calls carry no value
     if isinstance(base, VList):
         if name == "append":
             if it.class_ctx and id(base) not in it.class_ctx[-1].local_lists:
                 it.class_ctx[-1].appended.setdefault(id(base), []).append(args[0])
             else:
                 base.items.append(args[0])
+            return VNone()
+        if name == "extend" and args and isinstance(args[0], (VList, VTuple)):
+            if it.class_ctx and id(base) not in it.class_ctx[-1].local_lists:
+                for x in args[0].items:
+                    it.class_ctx[-1].appended.setdefault(id(base), []).append(x)
+            else:
+                base.items.extend(args[0].items)
             return VNone()
         if name == "copy":
             v = VList(list(base.items))
@@ -634,6 +653,11 @@ def tensor_method(it, base: VTensor, name, args, kwargs, node):
             n = n * s
         return VInt(it.facts.norm(n))
     if name == "dim":
+        if base.counts is not None:
+            tot = ZERO
+            for c in base.counts:
+                tot = tot + c
+            return VInt(it.facts.norm(tot))
         return VInt(P.const(base.block().ndim()))
     if name == "size":
         shp = base.block().shape()
@@ -785,6 +809,9 @@ def builtin(it, name, args, kwargs, fr, node):
             return VRange(vals[0], vals[1], -1)
         if st == 1:
             return VRange(vals[0], vals[1])
+        lo_c, hi_c = it.facts.norm(vals[0]).const_value(), it.facts.norm(vals[1]).const_value()
+        if st not in (None, 0) and lo_c is not None and hi_c is not None:
+            return VList([VInt(P.const(k)) for k in range(int(lo_c), int(hi_c), int(st))])
         raise Unmodelled("range step")
     if name == "zip":
         return VZip(list(args))
@@ -842,6 +869,8 @@ def builtin(it, name, args, kwargs, fr, node):
         return args[0]
     if name == "str":
         return VStr("")
+    if name == "bool" and len(args) == 1:
+        return VBool(it.truth(args[0]))
     if name in ("any", "all"):
         v = args[0]
         if isinstance(v, (VList, VTuple)):
@@ -1031,6 +1060,15 @@ def torch_function(it, dotted, last, args, kwargs, node):
         if isinstance(args[1], VIndexSeq):
             raise Unmodelled("symbolic permutation")
         return VTensor(args[0].dense().permute(_int_list(it, args[1])), args[0].dtype)
+    if last in ("bmm", "mm", "matmul") and len(args) == 2 and all(isinstance(a, VTensor) for a in args):
+        a, b = args[0].dense(), args[1].dense()
+        if last in ("mm", "matmul") and a.ndim() == 2 and b.ndim() == 2:
+            return VTensor(net.einsum(sp, "ij,jk->ik", [a, b]), args[0].dtype)
+        if last in ("bmm", "matmul") and a.ndim() == 3 and b.ndim() == 3:
+            return VTensor(net.einsum(sp, "bij,bjk->bik", [a, b]), args[0].dtype)
+        if last != "matmul":
+            raise TypeViolation(f"torch.{last} of operands with {a.ndim()} and {b.ndim()} axes")
+        raise Unmodelled("matmul of operands that are not both matrices or both batches of matrices")
     if last in ("transpose", "swapaxes", "swapdims"):
         d = args[0].dense()
         a, b = _int_list(it, args[1])[0] % d.ndim(), _int_list(it, args[2])[0] % d.ndim()
